@@ -15,6 +15,7 @@ CLAIMED = {
  "C09": ("seeded connect/re-pair/disconnect (partition/heal) sequences on free terminals against a symmetric-matching reference model; panics are crashes", "5 C09"),
  "C13": ("seeded simulation of device chains under arbitrary update schedules and skewed issuer clocks: newest-command-wins per update + bounded-progress check over the recorded schedule", "5 C13"),
  "C20": ("seeded simulation of wrappers with inner-getter faults and inner-settable rejections; PID wrapper against a separately driven CommandPID twin", "5 C20"),
+ "C15": ("seeded op histories over settables / followers / history adapters with rejected sets, erroring followed getters, clock jumps (both directions) and clock errors, against a small reference model", "5 C15"),
 }
 NOT_APPLICABLE = {
  "C01": "pure function of (unit, unit, operator): no state, seam, clock, fault or order for a simulator to control; deterministic simulation with fault injection does not apply (DESIGN.md section 0)",
